@@ -202,6 +202,10 @@ class CLI:
                 except MosRoMgrException as e:
                     sys.stderr.write(f"{file}: Invalid\n")
                     continue
+                except OSError as e:
+                    # unreadable (missing, a directory, ...): report and carry on
+                    sys.stderr.write(f"{file}: {e.strerror}\n")
+                    continue
                 self.detect_file(mo, file)
                 if inspect:
                     mo.inspect()
